@@ -713,6 +713,15 @@ pub struct Not<I> {
     filter: FilterAny,
 }
 
+// Read-only observation hook for external verification tooling.
+#[cfg(olson_sean_k_wax_verif)]
+impl<I> Not<I> {
+    /// Gets the patterns of the exhaustive and nonexhaustive programs of this negation.
+    pub fn verif_patterns(&self) -> (Option<String>, Option<String>) {
+        self.filter.verif_patterns()
+    }
+}
+
 impl<I> CancelWalk for Not<I>
 where
     I: CancelWalk,
